@@ -201,10 +201,18 @@ def audit(prop: str) -> dict:
 # the Lean driver
 # ----------------------------------------------------------------------------------------
 
-def run_driver(lines: list[str]) -> list[str]:
+def run_driver(lines: list[str], timeout: int = 3600, mem_gb: int | None = None) -> list[str]:
     if not lines:
         return []
-    p = subprocess.run([str(DRIVER)], input="\n".join(lines) + "\n", capture_output=True, text=True, timeout=3600)
+
+    def limits():
+        import resource
+        resource.setrlimit(resource.RLIMIT_AS, (mem_gb << 30, mem_gb << 30))
+    try:
+        p = subprocess.run([str(DRIVER)], input="\n".join(lines) + "\n", capture_output=True, text=True, timeout=timeout,
+                           preexec_fn=limits if mem_gb is not None else None)
+    except subprocess.TimeoutExpired:
+        raise InfraError(f"driver timed out after {timeout}s")
     if p.returncode != 0:
         raise InfraError(f"driver crashed rc={p.returncode}: {p.stderr[-2000:]}")
     out = p.stdout.splitlines()
